@@ -92,7 +92,25 @@ func corruptJSON(r *core.RNG, v any, n int) any {
 		case 3:
 			switch x := get().(type) {
 			case string:
-				if len(x) > 0 {
+				if len(x) > 0 && r.Chance(1, 2) {
+					// another spelling of the same word: case changes (name comparisons that are exact in one place and
+					// case-insensitive in another)
+					switch r.Intn(3) {
+					case 0:
+						set(strings.ToUpper(x))
+					case 1:
+						set(strings.ToLower(x))
+					default:
+						b := []byte(x)
+						i := r.Intn(len(b))
+						if b[i] >= 'a' && b[i] <= 'z' {
+							b[i] -= 32
+						} else if b[i] >= 'A' && b[i] <= 'Z' {
+							b[i] += 32
+						}
+						set(string(b))
+					}
+				} else if len(x) > 0 {
 					set(x[:len(x)/2])
 				} else {
 					set(json.Number("7"))
@@ -414,6 +432,18 @@ func (w *World) execHostile(stepIdx int, st *Step) {
 				default:
 					patches = append(patches, corruptJSON(r, p, r.Range(1, 2)))
 				}
+			}
+			if r.Chance(1, 3) {
+				// keys whose type, kty and crv do not belong together, in every spelling
+				var hk []any
+				for n := r.Range(1, 3); n > 0; n-- {
+					hk = append(hk, map[string]any{"id": fmt.Sprintf("h%d", n),
+						"type": core.Pick(r, []string{"Ed25519VerificationKey2018", "Ed25519VerificationKey2020", "JsonWebKey2020", "EcdsaSecp256k1VerificationKey2019", "X25519KeyAgreementKey2019"}),
+						"publicKeyJwk": map[string]any{"kty": core.Pick(r, []string{"EC", "ec", "Ec", "OKP", "okp", "RSA", "oct"}),
+							"crv": core.Pick(r, []string{"secp256k1", "SECP256K1", "Secp256k1", "secp256K1", "P-256", "p-256", "P-384", "P-521", "Ed25519", "ED25519", "ed25519", "X25519", "P-999"}),
+							"x":   ref.B64(r.Bytes(core.Pick(r, []int{0, 1, 31, 32, 33, 48, 66}))), "y": ref.B64(r.Bytes(core.Pick(r, []int{0, 32, 33, 48, 66})))}})
+				}
+				patches = append(patches, map[string]any{"action": "add-public-keys", "publicKeys": hk})
 			}
 			var lps []patch.Patch
 			for _, p := range patches {
